@@ -108,6 +108,20 @@ def generated_cases(rng, n):
         for k, nm in enumerate(c.parts): sc.file("in%d.cab" % k, c.files[nm])
         cab_ops(sc, len(c.parts)); out.append(Case("gen:cab-set", "cab", sc, True, [m.data for m in c.members]))
     for i in range(max(1, n // 2)):
+        # joins that must be refused: circular, repeated, self, null (after the set has been joined correctly)
+        c = gen.cab_set(rng); np_ = len(c.parts)
+        sc = scenario.Scn()
+        for k, nm in enumerate(c.parts): sc.file("in%d.cab" % k, c.files[nm])
+        sc.op("cab_new")
+        for k in range(np_): sc.op("cab_open", "c%d" % k, "in%d.cab" % k)
+        for k in range(1, np_): sc.op("cab_append", "c%d" % (k - 1), "c%d" % k)
+        bad = [("cab_append", "c%d" % (np_ - 1), "c0"), ("cab_prepend", "c0", "c%d" % (np_ - 1)), ("cab_append", "c0", "c0"), ("cab_append", "c0", "null"),
+               ("cab_append", "c0", "c1"), ("cab_prepend", "c1", "c0")]
+        rng.shuffle(bad)
+        for b in bad[:4]: sc.op(*b)
+        sc.op("cab_list", "c0").op("cab_extract_all", "c0", "out", 6).op("cab_close", "c0")
+        out.append(Case("gen:cab-set-badjoin", "cab", sc))
+    for i in range(max(1, n // 2)):
         # an incomplete set: only some parts are opened (split blocks without their continuation, files needing a predecessor)
         c = gen.cab_set(rng)
         keep = sorted(rng.sample(range(len(c.parts)), rng.randrange(1, len(c.parts))))
@@ -303,4 +317,33 @@ def uninit_cases(rng, n):
         for _ in range(rng.randrange(4, 200)): b.bits(rng.randrange(256), 8)
         kw = kwajfmt.kwaj(3, b.done(), 0)
         sc = scenario.Scn().file("in0.kwj", kw); fmt_ops("kwaj", sc); out.append(Case("uninit:kwaj-lzh-type", "kwaj", sc))
+    return out
+
+def cycle_cases(rng, n):
+    """CHM directories whose chunk links form cycles (C04): PMGL NextChunk rings and PMGI entries naming their own chunk"""
+    out = []
+    for i in range(n):
+        f0 = [(b"/f%03d.txt" % j, b"x" * (j % 7)) for j in range(rng.choice([40, 80]))]
+        csz = rng.choice([256, 512])
+        try:
+            chm, exp = chmfmt.build(f0, [], rng, chunk_size=csz, density=rng.choice([0, 2]), with_index=(i % 2 == 1))
+        except ValueError:
+            continue
+        b = bytearray(chm); hs1 = 0x38 + 0x28 + 0x18; dirstart = hs1 + 0x54
+        nchunks = struct.unpack_from("<I", b, hs1 + 0x2C)[0]; last = struct.unpack_from("<I", b, hs1 + 0x24)[0]
+        if i % 2 == 0:
+            # ring among the PMGL chunks: the last listing chunk points back to an earlier one
+            tgt = rng.randrange(0, last + 1)
+            struct.pack_into("<I", b, dirstart + last * csz + 0x10, tgt)
+        else:
+            root = struct.unpack_from("<I", b, hs1 + 0x1C)[0]
+            if root == 0xFFFFFFFF: continue
+            # first entry of the root PMGI: name_len name chunk#  -> make it name the root itself (single-byte encint if it fits)
+            p = dirstart + root * csz + 8; nl = b[p]; q = p + 1 + nl
+            if root < 128 and b[q] < 128: b[q] = root
+            else: continue
+        sc = scenario.Scn().file("in0.chm", bytes(b)).op("chm_new").op("chm_fast_open", "h0", "in0.chm")
+        for nm in (b"/f000.txt", b"/zzz-absent", b"/f040.txt", b"/", b"/f999"): sc.op("chm_find", "h0", nm.hex())
+        sc.op("chm_close", "h0")
+        out.append(Case("cycle:chm-%s" % ("pmgl" if i % 2 == 0 else "pmgi"), "chm", sc))
     return out
